@@ -6,10 +6,16 @@ SPEC = {'level': 'exploration',
                  'record of actual tip changes at step boundaries; intermediate tips inside one activation step are only checked through replay consistency and the final tip',
                  'callbacks are delivered by the production path (CScheduler thread + SerialTaskRunner) in 5/6 of the cases; only harness-owned, seeded schedules are explored'],
  'stages': [gen('vh_c63', 'c63_signals', 480, 9000, min_cases_quick=160, replays_needed=2, replays_total=5,
-                floors={'scheduler-thread': 0.6, 'reorg': 0.4, 'reorg-depth>=2': 0.2, 'tx-removed': 0.2, 'tx-removed-for-block': 0.2, 'bad-branch-detour': 0.1},
+                floors={'scheduler-thread': 0.6, 'reorg': 0.2, 'reorg-depth>=2': 0.1, 'tx-removed': 0.2, 'tx-removed-for-block': 0.2, 'bad-branch-detour': 0.05},
                 rule='histories with reorgs and pool churn; non-trivial = scheduler-thread delivery, replayed reorg of depth>=2, >=1 addition and >=1 removal reported'),
             gen('vh_c63', 'c63_signals_tsan', 32, 1600, cfg='tsan', workers_quick=4, workers_thorough=8, min_cases_quick=8, replays_needed=2, replays_total=5,
                 rule='same target in the ThreadSanitizer build (any TSan / lock-order report is a failure)')]}
+
+# VERIF_NO_TSAN=1 drops the ThreadSanitizer stages (used for sensitivity runs of mutants that only the differential/log oracle can see:
+# a header mutant would otherwise rebuild both trees)
+import os as _os
+if _os.environ.get('VERIF_NO_TSAN'):
+    SPEC['stages'] = [_st for _st in SPEC['stages'] if _st.get('cfg') != 'tsan']
 
 META = {'level_text': 'Generated histories (mempool submissions incl. chains and replacements, blocks mined from pool subsets with conflicting transactions, overtaking branches of '
                'depth 1-3, branches with an invalid last block, InvalidateBlock/reconsider) run on a real in-process regtest node whose validation callbacks are delivered '
